@@ -4,6 +4,6 @@ PATCH="$1"; PROP="$2"; TIER="${3:-quick}"
 cd /repo || exit 2
 if ! git diff --quiet; then echo "repo dirty"; exit 2; fi
 if ! git apply --3way "$PATCH" 2>/tmp/apply.err && ! git apply "$PATCH" 2>>/tmp/apply.err; then echo "PATCH DOES NOT APPLY"; cat /tmp/apply.err | tail -3; git reset -q --hard HEAD; exit 3; fi
-cd /verif && ./check "$PROP" --tier "$TIER" 2>&1 | grep -v "^   count_\|^   max_" | cut -c1-330 | head -8
+cd /verif && VERIF_EVIDENCE_DIR=/tmp/wt/evidence_mutants ./check "$PROP" --tier "$TIER" 2>&1 | grep -v "^   count_\|^   max_" | cut -c1-330 | head -8
 rc=$?
 cd /repo && git reset -q && git checkout -- . && git status --short | head -3
